@@ -1,4 +1,5 @@
 // TRUSTED PRELUDE: stand-ins for clvmr types the extracted code names.
+#[derive(Clone, Copy)]
 pub struct NodePtr(pub u32);
 impl NodePtr {
     pub const NIL: NodePtr = NodePtr(0);
